@@ -256,11 +256,14 @@ class ExprMixin(ExecBase):
                 s2 = st.copy()
                 s2.env = dict(st.env)
                 s2.env["self"] = o
-                self.spec += 1
-                try:
-                    outs = self.ev(_parse(cm.props[attr]), s2)
-                finally:
-                    self.spec -= 1
+                # a @property modelled by an expression over the object's fields: evaluated like code
+                # (heap reads get their validity facts), in the caller's spec/non-spec mode
+                npc = len(s2.pc)
+                outs = self.ev(_parse(cm.props[attr]), s2)
+                if len(outs) != 1:
+                    raise Unsupported("property %s.%s forks" % (cls, attr))
+                for f in outs[0][0].pc[npc:]:
+                    st.assume(f)
                 return [(st, outs[0][1])]
             return [(st, V(PYOBJ, PyThing("method", recv=o, name=attr)))]
         if ty == PYOBJ:
@@ -413,7 +416,7 @@ class ExprMixin(ExecBase):
             self.assume_valid(st, v)
             return v
         if isinstance(ty, Dict):
-            ck = T.coerce(k, ty.k)
+            ck = self.coerce_to(st, k, ty.k, "key")
             if ck is None:
                 raise Unsupported("dict key type %s for %s" % (k.ty, ty))
             dom = T.dict_dom(o)
@@ -648,17 +651,17 @@ class ExprMixin(ExecBase):
             coll = T.opt_val(coll)
             ty = coll.ty
         if isinstance(ty, Set):
-            cx = T.coerce(x, ty.elem)
+            cx = self.coerce_to(st, x, ty.elem, "member")
             if cx is None:
                 raise Unsupported("`in` set elem type %s vs %s" % (x.ty, ty.elem))
             return z3.Select(coll.t, cx.t)
         if isinstance(ty, Dict):
-            cx = T.coerce(x, ty.k)
+            cx = self.coerce_to(st, x, ty.k, "key")
             if cx is None:
                 raise Unsupported("`in` dict key type")
             return z3.Select(T.dict_dom(coll), cx.t)
         if isinstance(ty, List):
-            cx = T.coerce(x, ty.elem)
+            cx = self.coerce_to(st, x, ty.elem, "member")
             if cx is None:
                 raise Unsupported("`in` list elem type %s vs %s" % (x.ty, ty.elem))
             ln = T.list_len(coll)
